@@ -195,10 +195,39 @@ def pipe_shapes(tier):
     return S
 
 
+def random_zone_programs(tier, seed):
+    import random
+    rnd = random.Random(500 + seed)
+    S = []
+    for i in range(16 if tier == 'quick' else 400):
+        zones = {'ZA': (Sym('zas', 0x100, 0x140), Sym('zae', 0x120, 0x180)), 'ZB': (0x200, Sym('zbe', 0x200, 0x240))}
+        prog = []
+        nl = 0
+        for _ in range(rnd.randint(4, 9)):
+            r = rnd.random()
+            if r < 0.22:
+                prog.append(('memzone', rnd.choice(['ZA', 'ZB', 'GLOBAL'])))
+            elif r < 0.32:
+                z = rnd.choice(['ZA', 'ZB', None])
+                prog.append(('org', V('k') if z else ('+', V('g'), C(0x300)), z))
+            elif r < 0.5:
+                prog.append(('fill', V('n'), C(0xEE)))
+            elif r < 0.75:
+                nl += 1
+                prog.append(('label', f'l{nl}'))
+                prog.append(('data', rnd.choice(['.byte', '.2byte']), [L(f'l{rnd.randint(1, nl)}')]))
+            elif r < 0.85:
+                prog.append(('instr', rnd.choice(['nop', 'nn2', 'nib']), None))
+            else:
+                prog.append(('align', C(rnd.choice([4, 16]))))
+        S.append(mk(f'rnd:{seed}:{i}', prog, {'n': (0, 6), 'k': (-1, 0x50), 'g': (0, 0x80)}, zones=zones, expect=()))
+    return S
+
+
 def shapes(tier, seed):
     S = []
     for bits in (4, 8, 12, 16, 32, 64):
         for what in ('init', 'setter', 'create', 'manager'):
             S.append(ZoneUnit(f'unit:{what}:{bits}', bits=bits, what=what))
         S.append(ZoneUnit(f'unit:create-dup:{bits}', bits=bits, what='create', name='USED'))
-    return S + pipe_shapes(tier)
+    return S + pipe_shapes(tier) + random_zone_programs(tier, seed)
